@@ -444,11 +444,11 @@ fn add_intersecting_format2_patches(
     };
 
     for (order, e) in entries.iter().enumerate() {
-        if e.ignored {
-            continue;
-        }
-
-        if !entry_intersection_cache.intersects(order, subset_definition) {
+        // Child indices only refer to prior entries, so evaluating every entry in order (ignored ones
+        // included) means the children of an entry are always cached by the time it's evaluated. Otherwise
+        // a chain of ignored entries is walked recursively, to a depth bounded only by the entry count.
+        let intersects = entry_intersection_cache.intersects(order, subset_definition);
+        if e.ignored || !intersects {
             continue;
         }
 
